@@ -27,13 +27,15 @@ Lemma i_step_base now o st :
   fst (fst (i_step now o st)) = fst (fst (step now (i_base_op now o st) (i_cache st))) /\
   i_cache (snd (fst (i_step now o st))) = snd (fst (step now (i_base_op now o st) (i_cache st))).
 Proof.
-  destruct o as [k v trigs secs notr|k notr|t|t| | |n| | |k gz|k data secs| ]; cbn [i_step i_base_op step fst snd]; try (split; reflexivity).
+  destruct o as [k v trigs secs notr|k notr|t|t| | |n| | |k gz|k data secs| |k trigs secs notr]; cbn [i_step i_base_op step fst snd]; try (split; reflexivity).
   - destruct notr; cbn [fst snd i_set_cache i_cache]; [split; reflexivity|].
     rewrite i_add_all_spec. cbn [i_add i_cache]. split; reflexivity.
   - destruct (fetch now k (i_cache st)) as [c' r]. destruct r; cbn [fst snd]; [|split; reflexivity|split; reflexivity].
     destruct notr; [split; reflexivity|]. rewrite i_add_all_spec. split; reflexivity.
   - destruct (i_recs st); split; reflexivity.
   - destruct (fetch now (page_key gz k) (i_cache st)) as [c' r]. destruct r; split; reflexivity.
+  - destruct notr; cbn [fst snd i_set_cache i_cache]; [split; reflexivity|].
+    rewrite i_add_all_spec. cbn [i_add i_cache]. split; reflexivity.
 Qed.
 
 Lemma i_step_inv now o st : Inv (i_cache st) -> Inv (i_cache (snd (fst (i_step now o st)))).
@@ -99,7 +101,7 @@ Lemma i_step_recs now o st : plain o = true ->
   i_recs (snd (fst (i_step now o st))) = map (app (i_added now o st)) (i_recs st).
 Proof.
   intros Hp.
-  destruct o as [k v trigs secs notr|k notr|t|t| | |n| | |k gz|k data secs| ]; cbn [plain] in Hp; try discriminate;
+  destruct o as [k v trigs secs notr|k notr|t|t| | |n| | |k gz|k data secs| |k trigs secs notr]; cbn [plain] in Hp; try discriminate;
     cbn [i_step i_added fst snd i_recs i_set_cache i_add]; try (rewrite map_id; reflexivity).
   - destruct notr; cbn [i_recs i_set_cache]; [rewrite map_id; reflexivity|].
     rewrite i_add_all_spec. cbn [i_add i_recs]. rewrite map_map. apply map_ext. intros l. reflexivity.
@@ -109,13 +111,15 @@ Proof.
   - reflexivity.
   - destruct (fetch now (page_key gz k) (i_cache st)) as [c' r]. destruct r; cbn [fst snd i_recs i_set_cache]; rewrite map_id; reflexivity.
   - reflexivity.
+  - destruct notr; cbn [i_recs i_set_cache]; [rewrite map_id; reflexivity|].
+    rewrite i_add_all_spec. cbn [i_add i_recs]. rewrite map_map. apply map_ext. intros l. reflexivity.
 Qed.
 
 Lemma i_step_page now o st : is_reset o = false ->
   i_page (snd (fst (i_step now o st))) = i_added now o st ++ i_page st.
 Proof.
   intros Hp.
-  destruct o as [k v trigs secs notr|k notr|t|t| | |n| | |k gz|k data secs| ]; cbn [is_reset] in Hp; try discriminate;
+  destruct o as [k v trigs secs notr|k notr|t|t| | |n| | |k gz|k data secs| |k trigs secs notr]; cbn [is_reset] in Hp; try discriminate;
     cbn [i_step i_added fst snd i_page i_set_cache i_add app]; try reflexivity.
   - destruct notr; cbn [i_page i_set_cache]; [reflexivity|].
     rewrite i_add_all_spec. cbn [i_add i_page]. reflexivity.
@@ -124,6 +128,8 @@ Proof.
     destruct notr; [reflexivity|]. rewrite i_add_all_spec. reflexivity.
   - destruct (i_recs st); reflexivity.
   - destruct (fetch now (page_key gz k) (i_cache st)) as [c' r]. destruct r; reflexivity.
+  - destruct notr; cbn [i_page i_set_cache]; [reflexivity|].
+    rewrite i_add_all_spec. cbn [i_add i_page]. reflexivity.
 Qed.
 
 (* the page trigger set holds every name added since the last reset *)
@@ -237,4 +243,21 @@ Proof.
   destruct notr; cbn [i_cache i_set_cache].
   - rewrite store_then_rise_misses; [reflexivity|exact I|exact Ht].
   - rewrite i_add_all_spec. cbn [i_add i_cache]. rewrite store_then_rise_misses; [reflexivity|exact I|exact Ht].
+Qed.
+
+(* a frame whose value cannot be copied into the shared segment: whatever was cached under the key before, the next
+   fetch through the interface misses; its triggers were still handed to add_trigger (i_added, recorder_collects) *)
+Theorem failed_frame_store_misses_l now st k trigs secs notr notr' :
+  Inv (i_cache st) ->
+  let st2 := snd (fst (i_step now (IStoreFail k trigs secs notr) st)) in
+  snd (i_step now (IFetch k notr') st2) = IMiss.
+Proof.
+  intros I st2. rewrite i_step_out_fetch. unfold st2. cbn [i_step fst snd i_set_cache i_cache].
+  assert (H : forall s, Inv s -> snd (fetch now k (store now k [] trigs (deadtime now secs) None FDropBefore [] s)) = OMiss).
+  { intros s Is. unfold store, fetch. destruct (delete_node_ref k s Is) as [_ E].
+    change (primary (delete_node k s)) with (a_ent (abs (delete_node k s))). rewrite E. unfold a_delete; cbn [a_ent].
+    rewrite pfind_premove, key_eqb_refl. reflexivity. }
+  destruct notr; cbn [i_cache i_set_cache].
+  - rewrite H by exact I. reflexivity.
+  - rewrite i_add_all_spec. cbn [i_add i_cache]. rewrite H by exact I. reflexivity.
 Qed.
